@@ -206,3 +206,27 @@ Proof.
   rewrite next_message_spec by reflexivity. f_equal. f_equal.
   subst h. cbn [hdr_of_msg h_signature]. destruct (is_nil (m_body m)); reflexivity.
 Qed.
+
+(** ** C05: conformance, the statement of the property in one theorem *)
+Theorem conformant m serial hb : rust_typed m -> nonzero_u32 serial -> marshal_msg m serial = Ok hb ->
+  hb = fixed_part (m_be m) (type_no (m_typ m)) (m_flags m) (len (m_body m)) serial
+       ++ spec_enc (m_be m) 12 (header_value m)
+       ++ zeros (padlen 8 (12 + len (spec_enc (m_be m) 12 (header_value m))))
+  /\ dec (m_be m) (slice hb 4 4) = len (m_body m) /\ dec (m_be m) (slice hb 8 4) = serial
+  /\ wt (header_value m) T_FIELDS = true /\ encodable (m_be m) 12 0 (header_value m) = true
+  /\ (m_body m <> [] -> In (sig_field (m_sig m)) (fields_of_msg m))
+  /\ (m_body m = [] -> ~ has SIGNATURE (fields_of_msg m))
+  /\ (m_nfds m <> 0 -> In (u32_field UNIX_FDS (m_nfds m)) (fields_of_msg m))
+  /\ (m_nfds m = 0 -> ~ has UNIX_FDS (fields_of_msg m))
+  /\ names_valid m /\ (m_body m <> [] -> validate_signature (m_sig m) = Ok tt)
+  /\ m_typ m <> MInvalid /\ len hb + len (m_body m) <= 2 ^ 27.
+Proof.
+  intros T Hs H. destruct (marshal_msg_spec m serial hb T H) as (E & [Hn Hsig] & Hni & Hw & He & Hl).
+  assert (Hb : len (m_body m) < 2 ^ 32) by (assert (2 ^ 27 < 2 ^ 32) by (apply N.pow_lt_mono_r; lia); lia).
+  destruct (header_lengths m serial (proj2 Hs) Hb) as [L1 L2]. rewrite <- E in L1, L2.
+  destruct (fields_signature m) as [S1 S2]. destruct (fields_unix_fds m) as [F1 F2].
+  split; [|split; [exact L1|split; [exact L2|split; [exact Hw|split; [exact He|split; [exact S1|split; [exact S2|
+           split; [exact F1|split; [exact F2|split; [exact Hn|split; [exact Hsig|split; [exact Hni|exact Hl]]]]]]]]]]]].
+  rewrite E. unfold spec_header, spec_header_unpadded. cbv zeta. rewrite <- app_assoc. do 2 f_equal.
+  rewrite len_app. unfold fixed_part. rewrite !len_app, !len_enc. reflexivity.
+Qed.
